@@ -36,16 +36,18 @@ EXHAUSTIVE_PART = "per generated history: every (cycle,node), every cumulative n
 TIMEOUT = {"quick": 600, "thorough": 3600}
 FLOORS = {
     "quick": {
-        "trace.compare": 4000, "trace.events": 100000, "arith.node": 30000, "arith.step": 15000, "history.getters": 4000,
-        "run.restart": 300, "run.coupled-iterations": 300, "run.nonconverged-cap": 100, "run.exempt-cycle": 50, "run.halt": 200,
-        "run.deferred": 200, "run.reverseAtEOL": 500, "run.bolForce": 300, "run.zero-step-cycle": 200, "run.dependencies": 100,
-        "active.direct": 4000, "excluded.direct": 2000, "node.state": 10000, "arith.visit-order": 2000,
+        "trace.compare": 14000, "trace.events": 800000, "arith.node": 130000, "arith.step": 90000, "arith.sum-law": 40000,
+        "history.getters": 14000, "run.restart": 3000, "run.coupled-iterations": 2500, "run.nonconverged-cap": 2500, "run.exempt-cycle": 1200,
+        "run.halt": 2000, "run.deferred": 3500, "run.reverseAtEOL": 4000, "run.bolForce": 5000, "run.zero-step-cycle": 3000,
+        "run.dependencies": 3000, "active.direct": 40000, "excluded.direct": 28000, "node.state": 100000, "arith.visit-order": 14000,
+        "stack.order": 14000, "stack.duplicate": 2500,
     },
     "thorough": {
-        "trace.compare": 80000, "trace.events": 2000000, "arith.node": 600000, "arith.step": 300000, "history.getters": 80000,
-        "run.restart": 6000, "run.coupled-iterations": 6000, "run.nonconverged-cap": 2000, "run.exempt-cycle": 1000, "run.halt": 4000,
-        "run.deferred": 4000, "run.reverseAtEOL": 10000, "run.bolForce": 6000, "run.zero-step-cycle": 4000, "run.dependencies": 2000,
-        "active.direct": 80000, "excluded.direct": 40000, "node.state": 200000, "arith.visit-order": 40000,
+        "trace.compare": 84000, "trace.events": 4800000, "arith.node": 780000, "arith.step": 540000, "arith.sum-law": 240000,
+        "history.getters": 84000, "run.restart": 18000, "run.coupled-iterations": 15000, "run.nonconverged-cap": 15000, "run.exempt-cycle": 7200,
+        "run.halt": 12000, "run.deferred": 21000, "run.reverseAtEOL": 24000, "run.bolForce": 30000, "run.zero-step-cycle": 18000,
+        "run.dependencies": 18000, "active.direct": 240000, "excluded.direct": 168000, "node.state": 600000, "arith.visit-order": 84000,
+        "stack.order": 84000, "stack.duplicate": 15000,
     },
 }
 ASSUMPTIONS = [
@@ -55,7 +57,7 @@ ASSUMPTIONS = [
     "operator's cached cycle attributes reset to None); every 40th configuration uses a freshly constructed Operator as a cross-check",
     "restart is emulated the way armi's MainInterface does it: r.p.cycle/timeNode are set from startCycle/startNode before the run or by "
     "an interface during BOL",
-    "python logging is disabled in the shard process (observational only)",
+    "python logging is disabled in the shard process and armi's master code timer is emptied every 500 configurations (observational only)",
 ]
 
 HOOKS = ("BOL", "BOC", "EveryNode", "Coupled", "EOC", "EOL")
@@ -65,7 +67,7 @@ TRUTHY = [True, 1, "halt", [0], 2.5]
 
 def plan(tier, seed):
     q = tier == "quick"
-    n = 2400 if q else 30000
+    n = 2400 if q else 20000
     kinds = ["mix"] * 7 + ["coupled"] * 3 + ["restart"] * 2 + ["stack"] * 2 + ["arith"] * 2
     return [{"name": "%s-%02d" % (k, i), "kind": k, "n": n if k != "arith" else n // 2} for i, k in enumerate(kinds)]
 
@@ -970,4 +972,6 @@ def run_shard(spec, rec):
         _CTX["caseSeed"] = seed
         cfg = gen_config(rng, kind, idx)
         check_run(rec, H_, cfg, idx)
+        if idx % 500 == 499:
+            H_.o.timer.timers.clear()  # armi's master timer keeps a (start, end) pair per hook call for ever: bound the shard's memory
     rec.note("db-stub-writes(last case)", _CTX.get("dbwrites", 0))
